@@ -1,7 +1,217 @@
-/- C17: model not built yet (stub so that the per-property driver links). -/
+/-
+C17 — a running acquisition is free of data races: the skeleton's contracts (`mkSpec`), the parser of
+the harness lines and `runLine`.  Core Lean only.
+
+Encoding shared with harness/c17_canon.go:
+  thread = kind*M + b*100 + i   kinds 0 R (control client) 1 L (core loop) 2 P (producer / reader) 3 S (status thread)
+           4 A (block assembly of block b) 5 AW (assembly worker b,i) 6 W1a 7 W1b (first-wave worker b,i, spawned
+           before / after the core loop took its first request) 8 W2a 9 W2b (second wave) 10 AR (archive writer j)
+  var    = class*M + idx        1 nfn 2 etq 3 blk 4 seg 5 arch 6 afill 7 pst 8 ptrig 9 bcon 10 trs 11 wsa 12 wsc 13 vip 14 bst
+  object = class*M + idx        1 nb 2 bufc 3 qreq 4 qres 5 cm 6 cmpl 7 fl 8 wsm 9 cfg 10 wga 11 wgp 12 rund 13 abort
+  token  = var*2 + share        (ptrig, bcon, wsa have two shares: a read needs one, a write both)
+-/
 import DastardV.Proto
+import DastardV.Model.C17Sys
 namespace DastardV.C17
 
-def runLine (_ts : List String) : Verdict := .bad "C17: model not built yet"
+def M : Nat := 1000000
+
+def mkVar (cls idx : Nat) : Var := cls * M + idx
+def tk (cls idx share : Nat) : Tok := (cls * M + idx) * 2 + share
+
+/-- classes with two shares -/
+def twoShares (cls : Nat) : Bool := cls == 8 || cls == 9 || cls == 11
+
+/-- parameters of a run: channels, blocks built by a free-running producer, trigger-rate messages, archive requests,
+    source kind (0 = simulated: blocks are fresh objects, 1 = Abaco, 2 = Lancero: block objects merged) -/
+structure Par where
+  n : Nat
+  nblk : Nat
+  ntrs : Nat
+  narch : Nat
+  src : Nat
+  deriving Repr
+
+def Par.merged (p : Par) : Bool := p.src != 0
+
+def rng (n : Nat) : List Nat := List.range n
+
+/-- block + its segments -/
+def blockToks (p : Par) (b : Nat) : List Tok :=
+  if p.merged then tk 3 0 0 :: (rng p.n).map (fun i => tk 4 i 0)
+  else tk 3 b 0 :: (rng p.n).map (fun i => tk 4 (b * 100 + i) 0)
+
+def procToks (i : Nat) (both : Bool) : List Tok :=
+  if both then [tk 7 i 0, tk 8 i 0, tk 8 i 1] else [tk 7 i 0, tk 8 i 0]
+
+def nfnTok : Tok := tk 1 0 0
+
+def spawnPayOf (p : Par) (u : Tid) : List Tok :=
+  let kind := u / M
+  let i := u % 100
+  match kind with
+  | 1 => -- the core loop
+    (rng p.n).flatMap (fun i => procToks i false) ++ [tk 9 0 0, tk 14 0 0, tk 5 0 0, tk 11 0 0, tk 12 0 0]
+      ++ (rng p.narch).map (fun j => tk 6 j 0) ++ (rng p.ntrs).map (fun m => tk 10 m 0)
+      ++ (if p.merged then blockToks p 0 else []) ++ (if p.src == 2 then [nfnTok] else [])
+  | 2 => -- producer: a free-running producer owns the frame counter and every block it will build
+    if p.merged then [] else nfnTok :: (rng p.nblk).flatMap (fun b => blockToks p (b + 1))
+  | 4 => (if p.merged then blockToks p 0 else []) ++ (if p.src == 2 then [nfnTok] else [])
+  | 5 => [tk 4 i 0]
+  | 6 => procToks i false
+  | 7 => procToks i true
+  | 8 => procToks i false
+  | 9 => procToks i true
+  | _ => []
+
+def mkSpec (p : Par) : Spec where
+  toks := fun x => if twoShares (x / M) then [x * 2, x * 2 + 1] else [x * 2]
+  varOf := fun k => k / 2
+  chanPay := fun c =>
+    let cls := c / M
+    let idx := c % M
+    if cls == 1 then
+      (if p.merged then (if idx == 0 then blockToks p 0 ++ (if p.src == 2 then [nfnTok] else []) else [])
+       else (if idx == 0 then [] else blockToks p idx))
+    else if cls == 3 then (if idx == 1 then (rng p.n).map (fun i => tk 8 i 1) ++ [tk 9 0 1] else [])
+    else if cls == 5 then [tk 10 idx 0]
+    else if cls == 6 then [tk 6 idx 0]
+    else []
+  closePay := fun _ => []
+  mtxPay := fun m =>
+    if m == 7 * M then (if p.src == 1 then [nfnTok, tk 2 0 0] else [])
+    else if m == 8 * M then [tk 11 0 1]
+    else if m == 9 * M then [tk 13 0 0]
+    else []
+  donePay := fun w t =>
+    let cls := w / M
+    let kind := t / M
+    if cls == 10 then (if kind == 5 then spawnPayOf p t else [])
+    else if cls == 11 then (if 6 ≤ kind ∧ kind ≤ 9 then spawnPayOf p t else [])
+    else if cls == 12 then (if t == 1 * M then [tk 11 0 0, tk 12 0 0] else [])
+    else []
+  spawnPay := spawnPayOf p
+  init := fun k =>
+    let x := k / 2
+    let cls := x / M
+    if cls == 13 then .mtx (9 * M)
+    else if cls == 11 && k % 2 == 1 then .mtx (8 * M)
+    else if p.src == 1 && (cls == 1 || cls == 2) then .mtx (7 * M)
+    else .thr 0
+
+/-! ### parsing -/
+
+def evOf (code arg : Nat) : Option Ev :=
+  match code with
+  | 0 => some (.rd arg) | 1 => some (.wr arg) | 2 => some (.send arg) | 3 => some (.recv arg)
+  | 4 => some (.close arg) | 5 => some (.recvC arg) | 6 => some (.lock arg) | 7 => some (.unlock arg)
+  | 8 => some (.wgAdd arg) | 9 => some (.wgDone arg) | 10 => some (.wgWait arg) | 11 => some (.spawn arg)
+  | 12 => some .start
+  | _ => none
+
+def pEvent : P (Tid × Ev) := do
+  let t ← P.nat
+  let c ← P.nat
+  let a ← P.nat
+  match evOf c a with
+  | some e => pure (t, e)
+  | none => P.fail s!"bad event code {c}"
+
+def className (cls : Nat) : String :=
+  match cls with
+  | 1 => "nfn" | 2 => "etq" | 3 => "blk" | 4 => "seg" | 5 => "arch" | 6 => "afill" | 7 => "pst" | 8 => "ptrig"
+  | 9 => "bcon" | 10 => "trs" | 11 => "wsa" | 12 => "wsc" | 13 => "vip" | 14 => "bst" | _ => "var" ++ toString cls
+
+def showEv (te : Tid × Ev) : String := s!"{te.1}:{repr te.2}"
+
+def srcCode (s : String) : Nat := if s == "abaco" then 1 else if s == "lancero" then 2 else 0
+
+def feasFailFrom : FSt → Trace → Nat → Option Nat
+  | _, [], _ => none
+  | s, te :: r, i => match stepF s te with
+    | none => some i
+    | some s' => feasFailFrom s' r (i + 1)
+
+/-- Thread ids of the harness encoding are sparse (kind*M + ...); vector clocks are lists indexed by thread id.
+    The race analysis therefore runs on the trace with thread ids renumbered densely in order of first appearance
+    (an injective renaming: it changes neither the events' order nor which events belong to the same thread). -/
+def denseId (m : List (Nat × Nat)) (t : Tid) : List (Nat × Nat) × Nat :=
+  match m.lookup t with
+  | some d => (m, d)
+  | none => ((t, m.length) :: m, m.length)
+
+def denseFrom : List (Nat × Nat) → Trace → Trace
+  | _, [] => []
+  | m, (t, e) :: r =>
+    let (m1, t') := denseId m t
+    match e with
+    | .spawn u =>
+      let (m2, u') := denseId m1 u
+      (t', .spawn u') :: denseFrom m2 r
+    | e => (t', e) :: denseFrom m1 r
+
+def dense (tr : Trace) : Trace := denseFrom [] tr
+
+/-- the oracle for a logged trace: (1) no race by the vector-clock analysis, (2) a feasible linearisation,
+    (3) accepted by the ownership contracts of the skeleton -/
+def judgeTrace (p : Par) (tr : Trace) : Verdict :=
+  match firstRace (dense tr) with
+  | some (i, x) => .viol s!"C17:race-{className (x / M)} unordered access at event {i} of the logged trace: {(tr[i]?).map showEv}"
+  | none =>
+    match feasFailFrom FSt.init tr 0 with
+    | some i => .diff s!"trace-infeasible at event {i}: {(tr[i]?).map showEv}"
+    | none =>
+      match ownFail (mkSpec p) tr with
+      | some i => .diff s!"skeleton-conformance: event {i} is not permitted by the ownership contracts: {(tr[i]?).map showEv}"
+      | none =>
+        let has (f : Tid × Ev → Bool) (tag : String) : List String := if tr.any f then [tag] else []
+        .ok (["traced", "src" ++ toString p.src]
+          ++ has (fun te => te.1 / M == 8 || te.1 / M == 9) "secondWave"
+          ++ has (fun te => te.1 / M == 10) "archived"
+          ++ has (fun te => te.2 == .recv (5 * M) || (match te.2 with | .recv c => c / M == 5 | _ => false)) "trigRate"
+          ++ has (fun te => match te.2 with | .recv c => c / M == 3 | _ => false) "requests"
+          ++ has (fun te => match te.2 with | .wr x => x / M == 11 | _ => false) "writing"
+          ++ has (fun te => match te.2 with | .wr x => x / M == 13 | _ => false) "stateSaved")
+
+def pLine : P Verdict := do
+  P.kw "kind"
+  let kind ← P.tok
+  P.kw "src"
+  let src ← P.tok
+  P.kw "nchan"; let _ ← P.nat
+  P.kw "runms"; let _ ← P.nat
+  P.kw "yield"; let _ ← P.nat
+  P.kw "savegap"; let _ ← P.nat
+  P.kw "narch"; let _ ← P.nat
+  P.kw "OUT"
+  if kind == "trace" then
+    P.kw "n"; let n ← P.nat
+    P.kw "nblk"; let nblk ← P.nat
+    P.kw "ntrs"; let ntrs ← P.nat
+    P.kw "narch"; let narch ← P.nat
+    P.kw "merged"; let _ ← P.nat
+    P.kw "EVS"
+    let tr ← P.list pEvent
+    P.kw "RUN"
+    let run ← P.tok
+    if !(run.startsWith "start=ok") then
+      return .diff s!"run-failed {run}"
+    return judgeTrace { n := n, nblk := nblk, ntrs := ntrs, narch := narch, src := srcCode src } tr
+  else
+    let t ← P.tok
+    if t == "RACE" then
+      let k ← P.nat
+      if k == 0 then
+        return .ok ["raceSearch", "src" ++ toString (srcCode src)]
+      let s1 ← P.tok; let k1 ← P.tok; let f1 ← P.tok
+      let s2 ← P.tok; let k2 ← P.tok; let f2 ← P.tok
+      return .viol s!"C17:race-{s1} Go race detector: {k1} at {s1} ({f1}) unordered with {k2} at {s2} ({f2}); {k} distinct site pair(s) in this run"
+    else
+      return .diff s!"race-run {t}"
+
+def runLine (ts : List String) : Verdict :=
+  match P.run pLine ts with
+  | .ok v => v
+  | .error e => .bad e
 
 end DastardV.C17
